@@ -26,6 +26,7 @@ import mpservice.streamer._streamer as _S
 from mpservice.streamer import Stream
 
 MODEL = 'pipeline'
+CRASH_PROPS = ['C03']   # an exception escaping from mpservice code while a case is driven is reported for these
 HANG_S = 20.0
 
 
@@ -868,12 +869,9 @@ def _stops_early(ops):
 def fix_buffers(ops, partial):
     """F6 (Buffer._finalize can deadlock when the consumer stops early and maxsize < 3) is C05's
     finding, not this property's: keep small buffers out of early-stop contexts."""
-    out = []
-    for i, op in enumerate(ops):
-        if op[0] == 'buffer' and op[1] < 3 and (partial or _stops_early(ops[i + 1:])):
-            op = ['buffer', 3]
-        out.append(op)
-    return out
+    # F6 has been repaired in /repo (commit f93d591): small buffers are generated everywhere now, so
+    # that the look-ahead of buffer(1)/buffer(2) under partial consumption is exercised as well.
+    return list(ops)
 
 
 def gen_case(rng, tier, boundary=False):
